@@ -167,10 +167,11 @@ func (g *siteGen) leaf() string {
 		r.Status = 403
 		r.CFHeader = []string{"cf-mitigated", "Cf-Mitigated", "CF-MITIGATED"}[g.pick("cfname", 3)]
 	case st == 13:
-		r.Status = 404
+		// (420 and 499, like 520 and 999 below, are codes servers do send but that have no registered reason phrase)
+		r.Status = []int{404, 404, 404, 420, 499}[g.pick("notfound", 5)]
 	default:
 		if g.pm("badstatus", g.mix.BadStatus) {
-			r.Status = []int{429, 500, 503, 500, 503, 408}[g.pick("bad", 6)]
+			r.Status = []int{429, 500, 503, 500, 503, 408, 520, 999}[g.pick("bad", 8)]
 		}
 	}
 	if g.mix.NoPenalty && (r.Status == 403 || r.Status == 408 || r.Status == 429) {
